@@ -121,12 +121,28 @@ def load_bytes(b):
     return torch.load(io.BytesIO(b), weights_only=False)
 
 
-def restore(cfg, blob, param_values):
+def altered_ctor_cfg(cfg):
+    """same optimizer, but constructed with other values for the hyper-parameters that live in param_groups and are
+    restored by load_distributed_state_dict (a resumed job is often constructed from defaults / a newer config)."""
+    c = dict(cfg)
+    c["lr"] = cfg["lr"] * 0.5
+    if cfg["wd"] != 0.0:
+        c["wd"] = cfg["wd"] * 0.5
+    c["dampening"] = 0.25 if cfg["dampening"] != 0.25 else 0.5
+    c["nesterov"] = not cfg["nesterov"]
+    c["decoupled"] = not cfg["decoupled"]
+    c["freq"], c["start"] = cfg["freq"] + 1, max(cfg["start"], cfg["freq"] + 1) + 1
+    if cfg["betas"][0] != 0.0:
+        c["beta3"] = 0.125
+    return c
+
+
+def restore(cfg, blob, param_values, alt=False):
     import torch
 
     dt = common.dtype_of(cfg["pdtype"])
     params = [torch.nn.Parameter(v.detach().clone()) for v in param_values]
-    _, opt = seq.build(cfg, params=params)
+    _, opt = seq.build(altered_ctor_cfg(cfg) if alt else cfg, params=params)
     opt.load_distributed_state_dict(load_bytes(blob), key_to_param=iter(names(params)))
     return params, opt
 
@@ -182,7 +198,7 @@ def count_tensors(o):
     return 0
 
 
-def check_history(cfg, hist, stops=None, double=False):
+def check_history(cfg, hist, stops=None, double=False, alt=False):
     """Uninterrupted run A with a snapshot at every stop point; then every restore-and-continue run B."""
     import torch
 
@@ -212,7 +228,7 @@ def check_history(cfg, hist, stops=None, double=False):
     for k in (stops if stops is not None else range(len(hist) + 1)):
         blob, pv, tk = snaps[k]
         try:
-            p2, o2 = restore(cfg, blob, pv)
+            p2, o2 = restore(cfg, blob, pv, alt=alt)
             d = diff_digest(digs[k], full_digest(o2, p2))
             if d:
                 msgs.append(f"stop {k}: right after load: {d}")
@@ -424,6 +440,13 @@ def run_unit(unit):
                 res["nontrivial_count"] += max(0, len(hist) - 1)
                 if msgs:
                     res["violations"].append({"case": {"cfg": cfg, "hist": hist}, "msg": f"{msgs[0]} [cfg {brief(cfg)}]", "kind": msgs[0].split(":")[-1][:25]})
+                elif not cfg.get("groups") and hist is steps and all(m == rest[0] for m in rest):
+                    # same history, but the fresh optimizer is constructed with other restorable hyper-parameters
+                    m2, _, n2 = check_history(cfg, hist, alt=True)
+                    res["evals"] += n2
+                    res["stats"]["restore_runs_altered_ctor"] = res["stats"].get("restore_runs_altered_ctor", 0) + n2
+                    if m2:
+                        res["violations"].append({"case": {"cfg": cfg, "hist": hist, "alt": True}, "msg": f"{m2[0]} (fresh optimizer constructed with other lr/wd/dampening/nesterov/decoupled/frequency/start/beta3; load must restore them) [cfg {brief(cfg)}]", "kind": "alt"})
             if len(res["violations"]) > 6:
                 break
         res["samples"].append({"cfg": brief(cfg), "history": steps, "stop_points": list(range(depth + 1))})
@@ -442,4 +465,4 @@ def replay(case):
         return check_ddp(case["cfg"], case["hist"], W, g, comm, cp)[0]
     if case.get("mustraise"):
         return must_raise(case["cfg"])[0]
-    return check_history(case["cfg"], case["hist"], double=True)[0]
+    return check_history(case["cfg"], case["hist"], double=not case.get("alt"), alt=bool(case.get("alt")))[0]
